@@ -264,7 +264,7 @@ func (g *Gen) extras(n *Node, inObject bool, allowConst bool) {
 func (g *Gen) note(n *Node) {
 	if g.Rng.IntN(4) == 0 {
 		n.Note = pick(g.Rng, []string{"the id", "Name of the product.", "a note, with: punctuation; and (brackets)", "x", "note \"quoted\"", "unicode é note", "{not rules}", "dash - inside",
-			"poza liczbą", "déjà", "ух", "Р", "ok 😅", "日本", "a // b", "50% /* off", "tab\there", "trailing dot."})
+			"poza liczbą", "déjà", "ух", "Р", "ok 😅", "日本", "a // b", "\"deprecated\"", "\"C:\\temp\"", "'single'", "`code`", "[brackets]", "(parens)", "<tag>", "50% /* off", "tab\there", "trailing dot."})
 		if strings.HasPrefix(n.Note, "{") && (n.HasRules || len(n.Rules) > 0) == false {
 			n.Note = "n " + n.Note // a note-only annotation must not begin like a rule object
 		}
@@ -278,7 +278,17 @@ func (g *Gen) orAlternatives(valKind Kind) RV {
 	items := make([]RV, 0, n)
 	builtin := []string{"string", "integer", "float", "boolean", "null", "email", "date"}
 	for i := 0; i < n; i++ {
-		switch g.Rng.IntN(5) {
+		switch g.Rng.IntN(6) {
+		case 5:
+			// rule-set with a format type, often nullable
+			rs := []Rule{{"type", LitV(Q(pick(g.Rng, []string{"email", "uri", "uuid", "date", "datetime"})))}}
+			if g.Rng.IntN(2) == 0 {
+				rs = append(rs, Rule{"nullable", LitV(pick(g.Rng, []string{"true", "true", "false"}))})
+				if g.Rng.IntN(2) == 0 {
+					rs[0], rs[1] = rs[1], rs[0]
+				}
+			}
+			items = append(items, SetOf(rs...))
 		case 4:
 			// rule-set with an enum list (its rule name is looked at by a loader of its own)
 			var list []RV
